@@ -1,5 +1,6 @@
 SPECIFICATION Spec
 CONSTANTS
+  DTypes = {"none", "message", "call", "deploy", "deposit_add", "deposit_withdraw", "patch"}
   TxKinds = {"v3", "v2"}
   Keys = {"k1", "k2"}
   Msgs = {"this", "other"}
@@ -11,4 +12,4 @@ CONSTANTS
   HashLens = {32, 31, 1, 0, 33}
   MaxTreat = 4
   MaxOps = 1
-INVARIANTS OnlySender SenderAccepted RoundTrips
+INVARIANTS OnlySender EveryTypeGuarded SenderAccepted RoundTrips
